@@ -69,6 +69,7 @@ class WildGen:
             this_in_base=False,        # D38: class X : B<This>
             func_templated_inst=False, # D37: function template instantiated with a templated argument
             near_miss=True,            # identifiers that contain a parameter's spelling
+            dunder_param_args=False,   # D39: dunder-method arguments of templated classes are not instantiated
             special_names=0.0,         # python keywords / ipython names / print / serialize as member names
         )
         f.update(features)
@@ -219,7 +220,7 @@ class WildGen:
                 while total * len(insts) > self.k.inst_cap and len(insts) > 1:
                     insts = insts[:-1]
                 total *= len(insts)
-            out.append(S.TParam(nm + str(self.r.randint(0, 3)) if self.r.random() < 0.3 else nm, insts))
+            out.append(S.TParam(nm + 'p' + str(self.r.randint(0, 3)) if self.r.random() < 0.3 else nm, insts))
         # parameter names must be distinct
         if len({p.name for p in out}) != len(out):
             out = [S.TParam(p.name + '_%d' % i, p.insts) for i, p in enumerate(out)]
@@ -299,8 +300,12 @@ class WildGen:
                 members.append(self.operator(name))
             elif k == 'dunder':
                 nm = r.choice(['len', 'contains', 'iter'] + (['foo', 'getitem'] if self.f['dunder_any'] else []))
+                hold = (self.scope_params, self.in_class)
+                if not self.f['dunder_param_args']:
+                    self.scope_params, self.in_class = [], False
                 a = (S.Arg(self.type(), self.ident()),) if nm == 'contains' else \
                     (self.args(False, 2) if nm in ('foo', 'getitem') else ())
+                self.scope_params, self.in_class = hold
                 members.append(S.Dunder(nm, a))
             elif k == 'enum':
                 members.append(self.enum())
